@@ -44,6 +44,7 @@ func (d gsm7Decoder) Transform(dst, src []byte, atEOF bool) (nDst, nSrc int, err
 			nDst--
 		}
 		copy(dst, buf.Bytes())
+		nSrc = len(src)
 	}
 	return
 }
